@@ -21,6 +21,43 @@ class Livelock(Exception):
     pass
 
 
+class Hang(Exception):
+    """raised by the wall-clock watchdog into a kernel step that does not return (an endless loop that never yields)"""
+
+
+CURRENT_ENV = None
+HANG_PERIOD = 20.0     # seconds of wall clock between two looks of the watchdog
+HANG_LOOKS = 3         # consecutive looks that find the same kernel step still running
+_wd = {"env": None, "steps": -1, "n": 0}
+
+
+def _on_alarm(signum, frame):
+    env = CURRENT_ENV
+    if env is None or not getattr(env, "mon_in_step", False):
+        _wd.update(env=None, steps=-1, n=0)
+        return
+    if _wd["env"] is env and _wd["steps"] == env.mon_steps:
+        _wd["n"] += 1
+    else:
+        _wd.update(env=env, steps=env.mon_steps, n=1)
+    if _wd["n"] >= HANG_LOOKS:
+        _wd.update(env=None, steps=-1, n=0)
+        raise Hang(f"one kernel event callback has been running for more than {int(HANG_PERIOD * (HANG_LOOKS - 1))} s of wall clock "
+                   f"without returning (t={env._now}): endless loop that never yields")
+
+
+def install_hang_watchdog():
+    """A normal kernel step takes microseconds; a step that is still the same one after HANG_LOOKS looks 20 s apart does not
+    return.  The margin (7 orders of magnitude) makes machine load irrelevant; slow-but-progressing runs are never hit
+    because the step counter moves."""
+    import signal
+    try:
+        signal.signal(signal.SIGALRM, _on_alarm)
+        signal.setitimer(signal.ITIMER_REAL, HANG_PERIOD, HANG_PERIOD)
+    except (ValueError, AttributeError, OSError):
+        pass
+
+
 class MonEvent(Event):
     def __init__(self, env):
         Event.__init__(self, env)
@@ -92,6 +129,9 @@ class MonEnv(simpy.Environment):
     process = BoundClass(MonProcess)
 
     def __init__(self, initial_time=0):
+        global CURRENT_ENV
+        CURRENT_ENV = self
+        self.mon_in_step = False
         self._mon = None
         self._mon_ctx = None
         self.__ap = None
@@ -123,7 +163,11 @@ class MonEnv(simpy.Environment):
     # -- stepping ---------------------------------------------------------------------
     def step(self):
         before = self._now
-        super().step()
+        self.mon_in_step = True
+        try:
+            super().step()
+        finally:
+            self.mon_in_step = False
         self.mon_steps += 1
         now = self._now
         if now < before:
